@@ -240,3 +240,8 @@ func IndentProfiles(maxLines int) [][]byte {
 	rec(nil)
 	return out
 }
+
+
+// CollisionRunes: runes whose code point, cut to its low byte, is a delimiter of the grammar
+// (LF CR blank ( ) " # , : ? = { } [ ] . % /): text containing them must pass like any other non-ASCII text.
+const CollisionRunes = "\u010a\u010d\u0120\u0128\u0129\u0122\u0123\u012c\u013a\u013f\u013d\u017b\u017d\u015b\u015d\u012e\u0125\u012f\u4e0a\u4e0d\U0001f60a\u200d"
